@@ -75,7 +75,7 @@ def scalar_obj(spec, u, x, s, j=0):
 def radial_block_min(spec, x, s, j=0):
     """Rotation-invariant block penalty: minimiser is r * x/||x||, r >= 0 solving a scalar prox."""
     x = np.asarray(x, dtype=float)
-    nx = float(np.linalg.norm(x))
+    nx = P.norm2(x)
     sc = dict(spec)
     rad = {"L2_1": "L1", "L2_05": "L0_5", "BlockMCPenalty": "MCPenalty", "BlockSCAD": "SCAD",
            "WeightedGroupL2": "WeightedL1"}[spec["name"]]
@@ -90,7 +90,7 @@ def block_obj(spec, u, x, s, j=0):
     x = np.asarray(x, dtype=float)
     if spec.get("positive") and np.any(u < 0):
         return np.inf
-    return float(0.5 * np.sum((u - x) ** 2) + s * float(P.radial(spec, np.linalg.norm(u), j)))
+    return float(0.5 * np.sum((u - x) ** 2) + s * float(P.radial(spec, P.norm2(u), j)))
 
 
 def group_positive_min(spec, x, s, g):
